@@ -69,6 +69,10 @@ T = {
  'C15': dict(design='4/C15', technique='round-trip property-based testing of drawing persistence (1-3 save/load cycles, string and file) and differential testing of declarative descriptions against a turtle model',
              text='Generated drawings over the persistable symbol set are saved to JSON and reloaded up to three times; after every cycle the translated circuit must still match the independent model of the original drawing (ids, kinds, values, terminal order, connectivity by node bijection, reference). Generated declarative element lists (every handler, direction, length, place_after, reverse, node and ground entries) are compared with a turtle model that never touches schemdraw.',
              note='JSON only (the statement names JSON; YAML of a drawing is not claimed); two-terminal declarative entries always state a direction; reflections of a whole drawing are not distinguishable at circuit level.'),
+
+ 'C14': dict(design='4/C14', technique='property-based testing of schematic annotations: strict text parser with exact decimal arithmetic against quantities of an independently constructed solution object; differential check declarative vs programmatic path',
+             text='Generated well-posed drawings x every annotatable element / labelled node x both directions x solution kind x display options; each label text is parsed and must denote, to the displayed precision, +-get_*(id) of a solution object the check builds from the documented meaning of the kind (DC, RMS phasor at 0 / at w, Re{X_peak e^{jwt}}); the declarative solution section must write exactly the labels of the corresponding programmatic calls.',
+             note='Uses the library\'s own solver on the translated circuit as reference (validated by C13/C01/C02) so that only the adapter (w, RMS/peak, sign, lookup, formatting) is judged; the time-function power annotation is excluded; open finding F20-C14 (suppressed complex part) is reported as KNOWN-FINDING.'),
 }
 
 DEFAULT_LEVEL = 'exploration'
